@@ -302,7 +302,7 @@ package bcl
 //@ func (*parser).endScope
 //@   requires in_scope: p.scope.depth >= 1
 //@   requires at_boundary: g.uninit == 0 && (p.hadError || (g.pend == F0() && g.sd == p.scope.localCount))
-//@   ensures depth_left: p.scope.depth == old(p.scope.depth) - 1
+//@   ensures [C02,C10,C06,C17] depth_left: p.scope.depth == old(p.scope.depth) - 1
 //@   ensures at_boundary: g.uninit == 0 && (p.hadError || (g.pend == F0() && g.sd == p.scope.localCount))
 //@   ensures [C02] pops_exact_suffix: p.scope.localCount <= old(p.scope.localCount) && (forall j int :: p.scope.localCount <= j && j < old(p.scope.localCount) ==> old(p.scope.locals[j].depth) > p.scope.depth) && (p.scope.localCount == 0 || p.scope.locals[p.scope.localCount-1].depth <= p.scope.depth)
 //@   ensures locals_kept: forall j int :: 0 <= j && j < p.scope.localCount ==> p.scope.locals[j] == old(p.scope.locals[j])
